@@ -21,7 +21,7 @@ def main():
     for prop in props:
         pid = prop["id"]
         path = os.path.join(VERIF, "vmon", "props", pid.lower() + ".py")
-        if not os.path.exists(path):
+        if not os.path.exists(path) or pid in os.environ.get("PENDING", "").split(","):
             not_applicable.append({"property_id": pid, "reason": PENDING_REASON})
             continue
         mod = importlib.import_module("vmon.props." + pid.lower())
